@@ -423,6 +423,11 @@ class Tracer(object):
         if cn is None:
             return
         st = sa.inspect(target)
+        if st.pending:
+            # a row switch: this object enters the database in this transaction just like an INSERTed one
+            if not hasattr(self, '_tx_inserted'):
+                self._tx_inserted = set()
+            self._tx_inserted.add(id(target))
         ck = set(st.committed_state.keys())
         # (covers SQLAlchemy's "row switch" too: the columns a still pending object never set are read from the row)
         vals = self.vals_of(target, cn, connection)
